@@ -47,7 +47,13 @@ CATALOGUE = [
     (None, '.byte', ['"x;y"'], False),
     ('pth', '.cstr', ['"C:\\\\"'], False),           # the string ends in an escaped backslash: C:\\ 
     (None, '.byte', ['"q\\\\"'], False),
+    # directives and preprocessor lines take comments, blank lines and whitespace like any other line
+    (None, '#include', ['"inc18.asm"'], False),
+    (None, '.org', ['$40'], False),
+    (None, '#define', ['QQ'], False),
+    (None, '.align', ['4'], False),
 ]
+FILES_EXTRA = {'inc18.asm': 'inc18: .byte $5A\n    nop\n'}
 HEADER = [('lab', None, [], False), (None, 'nop', [], True)]
 FOOTER = [('nop_x', 'nop', [], True)]
 CONSTS = 'A1 = 3\n'
@@ -161,9 +167,23 @@ SCOPE_PROGRAMS = [
 ]
 
 
+# programs made of preprocessor lines (a keyword and its argument are tokens like any others)
+PREPROC_PROGRAMS = [
+    [('lab', None, [], False), (None, '#if', ['A1 == 3'], False), (None, 'nop', [], True), (None, '#elif', ['A1 == 4'], False),
+     (None, 'ldi', [('reg', 'a'), '5'], True), (None, '#else', [], False), (None, 'push', [('reg', 'a')], True), (None, '#endif', [], False),
+     ('nop_x', 'nop', [], True)],
+    [('lab', None, [], False), (None, '#ifdef', ['A9'], False), (None, 'nop', [], True), (None, '#endif', [], False),
+     (None, '#ifndef', ['A9'], False), (None, 'ldi', [('reg', 'b'), '7'], True), (None, '#endif', [], False), ('nop_x', 'nop', [], True)],
+    [('lab', None, [], False), (None, '#create_memzone', ['zq $60 $6F'], False), (None, '.memzone', ['zq'], False), (None, '.byte', ['1'], False),
+     (None, '#mute', [], False), (None, '.byte', ['2'], False), (None, '#unmute', [], False), ('nop_x', 'nop', [], True)],
+    [('lab', None, [], False), (None, '#define', ['QV 5'], False), (None, '#if', ['QV'], False), (None, '.byte', ['QV'], False),
+     (None, '#endif', [], False), ('nop_x', 'nop', [], True)],
+]
+
+
 def programs(tier):
     q = tier == 'quick'
-    progs = [list(p) for p in SCOPE_PROGRAMS]
+    progs = [list(p) for p in SCOPE_PROGRAMS] + [list(p) for p in PREPROC_PROGRAMS]
     for s in CATALOGUE:
         progs.append(HEADER + [s] + FOOTER)
     pairs = list(itertools.product(CATALOGUE, repeat=2))
@@ -181,7 +201,7 @@ def meta(tier):
     q = tier == 'quick'
     return {
         'rule': 'base programs: header + every single statement and every ordered pair (thorough: triples of the first 10) of a '
-                '16-statement catalogue (every instruction form of the probe ISA, data lines, labelled statements, operands that look '
+                '26-statement catalogue (every instruction form of the probe ISA, data lines, labelled statements, an #include, .org, .align and #define line, operands that look '
                 'like mnemonics or registers: label nop_x, constant A1) + footer; rewrites: for each kind (mnemonic case, register case, '
                 'token separator, comma spacing, bracket padding, indentation, blank lines, comments incl. ones containing a mnemonic '
                 'and a quote, label on its own line, instructions joined on one line) and each variant of the kind, every subset of the '
@@ -212,7 +232,7 @@ def shard(acc, tier, idx, n):
         if pi % n != idx:
             continue
         base_text = render(prog, {})
-        base_case = Case(ISA, base_text)
+        base_case = Case(ISA, dict(FILES_EXTRA, **{'main.asm': base_text}))
         base = acc.run(base_case)
         acc.transition()
         acc.state(base_text)
@@ -226,7 +246,7 @@ def shard(acc, tier, idx, n):
             if text in seen:
                 return
             seen.add(text)
-            case = Case(ISA, text)
+            case = Case(ISA, dict(FILES_EXTRA, **{'main.asm': text}))
             out = acc.run(case)
             acc.transition()
             spec = {'type': 'same', 'kind': kind}
